@@ -13,5 +13,6 @@ import c10
 c10.h5_build()
 import c17, mainloop
 c17.loaders_build(); mainloop.main_build()
+import mainsetup; mainsetup.setup_build()
 import c13
 c13.opts_build()
